@@ -33,6 +33,7 @@ type Engine struct {
 	chanDecls   []*ChanDecl
 	guardAssume    []string // assumptions of the guarded-by check
 	stateless      []statelessDecl
+	guardProp      string // property the guarded-by scan currently runs for (default C20)
 	guardIfaceSites map[*ssa.MakeInterface][]string // interface hand-overs to library calls that need a foreign lock held
 	escIface       map[*ssa.Function][]*ssa.MakeInterface
 	escWrapper     map[*ssa.Function][]*ssa.Function
